@@ -131,7 +131,7 @@ func init() {
 		Technique:   "bounded-exhaustive enumeration of call histories on the implementation under a deterministic CSPRNG tape, value-tracing oracle",
 		Rule:        "enumerate histories of Encrypt calls; oracle traces every secret by value to a distinct tape draw, compares runs under two seeds and two plaintexts, and checks every chunk nonce with the reference AEAD. distinct_nontrivial counts distinct histories.",
 		Assumptions: commonAssume,
-		Runs:        []Run{{Pkg: hp + "c06", Variant: "real"}, {Pkg: hp + "c06", Variant: "scaled16", Optional: true}},
+		Runs:        []Run{{Pkg: hp + "c06", Variant: "real"}, {Pkg: hp + "c06", Variant: "scaled16", Optional: true}, {Pkg: "cmd/age", Variant: "mainhook+scryptrec", Optional: true, Shards: 1, Env: []string{"VERIF_HARNESS=c06rand", "VERIF_PROPERTY=C06"}}},
 	}
 }
 
